@@ -57,6 +57,7 @@ func (c *Conc) h(parts ...string) []byte {
 const (
 	BadEmpty      = "bad:empty"
 	BadNotBech32  = "bad:notbech32"
+	BadSpace      = "bad:space" // a string of blanks: not empty, not an address
 	BadDenom      = "bad:denom"
 	badDenomValue = "!"
 )
@@ -67,6 +68,9 @@ func (c *Conc) Addr(name string) string {
 	switch {
 	case name == BadEmpty:
 		return ""
+	case name == BadSpace:
+		c.addrRev[" \t "] = name
+		return " \t "
 	case name == BadNotBech32:
 		s = "notbech32-" + hex.EncodeToString(c.h("bad")[:4])
 		c.addrRev[s] = name
